@@ -684,7 +684,7 @@ func (s *sched) chain(th *thread, name, old string, oldGq int64, wasSending bool
 	case "eng:run":
 		return loop(), ""
 	case "tick:begin":
-		return rep("TEng", 2), "" // sendToGPUs, processReturnReq
+		return rep("TEng", 3), "" // sendToGPUs, completeEmptyCopies (none in these runs), processReturnReq
 	case "tick:end":
 		return append([]string{"TEng"}, loop()...), ""
 	case "gpu:event":
@@ -1321,6 +1321,14 @@ func stress(seconds float64, workers int, target int64, mix, chaos, oneq bool, s
 
 // ---------------------------------------------------------------- main
 
+func isHandReplay(path string) bool {
+	var probe []struct {
+		Hand bool `json:"hand"`
+	}
+	data, err := os.ReadFile(path)
+	return err == nil && json.Unmarshal(data, &probe) == nil && len(probe) > 0 && probe[0].Hand
+}
+
 func isCopyReplay(path string) bool {
 	var probe []struct {
 		Copy bool `json:"copy"`
@@ -1362,6 +1370,18 @@ func main() {
 		result = handCases(*seed, *handN)
 	case *copyN > 0:
 		result = copyCases(*seed, *copyN)
+	case *replay != "" && isHandReplay(*replay):
+		var cases []*HandCase
+		data, _ := os.ReadFile(*replay)
+		if err := json.Unmarshal(data, &cases); err != nil {
+			fmt.Fprintln(os.Stderr, err)
+			os.Exit(2)
+		}
+		for _, c := range cases {
+			c.Stuck, c.Panic, c.NotComparable = "", "", ""
+			runHandCase(c)
+		}
+		result = cases
 	case *replay != "" && isCopyReplay(*replay):
 		var cases []*CopyCase
 		data, _ := os.ReadFile(*replay)
